@@ -15,6 +15,7 @@ import (
 	"reflect"
 	"strings"
 	"sync"
+	"sync/atomic"
 	"time"
 
 	"filippo.io/age"
@@ -522,7 +523,9 @@ func main() {
 	t := true
 	r.Exhaustive = &t
 
-	// worker k owns plugin name k
+	// worker k owns plugin name k. After a few confirmed hangs the sweep stops:
+	// every further conversation that ends in a closed stdout would cost the
+	// plugin's whole self-destruct delay, and the verdict is already decided.
 	var next int
 	var nmu sync.Mutex
 	var wg sync.WaitGroup
@@ -535,7 +538,7 @@ func main() {
 				i := next
 				next++
 				nmu.Unlock()
-				if i >= len(convs) {
+				if i >= len(convs) || hangs.Load() >= 3 {
 					return
 				}
 				r.Guard(convs[i].describe(), func() { runConv(r, env, names[w], convs[i]) })
@@ -543,8 +546,13 @@ func main() {
 		}(w)
 	}
 	wg.Wait()
+	if hangs.Load() >= 3 {
+		r.Set("sweep_stopped_early_after_hangs", true)
+	}
 	r.Finish()
 }
+
+var hangs atomic.Int32
 
 type callResult struct {
 	stanzas []*age.Stanza
@@ -634,10 +642,11 @@ func runConv(r *mon.Run, env *plug.Env, name string, c *conv) {
 	var res callResult
 	select {
 	case res = <-done:
-	case <-time.After(150 * time.Second):
-		// the plugin self-destructs after 60 s, which unblocks any client
+	case <-time.After(120 * time.Second):
+		// the plugin self-destructs after 30 s, which unblocks any client
 		// that merely waits for it; not returning even then is a hang
-		r.Violate("hang:"+c.describe(), "client call did not return within 150 s (the plugin exits after 60 s at the latest)", replayOf(c))
+		hangs.Add(1)
+		r.Violate("hang:"+terminalOf(c), fmt.Sprintf("%s: client call did not return within 120 s (the plugin exits after 30 s at the latest)", c.describe()), replayOf(c))
 		return
 	}
 	r.Eval(1)
@@ -654,7 +663,8 @@ func runConv(r *mon.Run, env *plug.Env, name string, c *conv) {
 	r.Distinct(fmt.Sprintf("%s bytewise=%v timer=%v", desc, c.bytewise, c.timer))
 	r.Count("transcripts_checked", 1)
 	if tr.End == "self-timeout" {
-		r.Violate("hang:"+desc, "the client kept the conversation open until the plugin's 60 s self-destruct", replayOf(c))
+		hangs.Add(1)
+		r.Violate("hang:"+terminalOf(c), desc+": the client kept the conversation open until the plugin's 30 s self-destruct instead of returning an error", replayOf(c))
 		return
 	}
 
@@ -789,6 +799,18 @@ func runConv(r *mon.Run, env *plug.Env, name string, c *conv) {
 	}
 	r.SampleN(fin.kind, 2, map[string]any{"conversation": desc, "phase1": string(mon.Trunc(tr.Phase1, 300)),
 		"replies": repliesOf(tr), "result_error": fmt.Sprint(res.err), "model_outcome": fin.kind})
+}
+
+// terminalOf names how the plugin ended the conversation (the class of a hang).
+func terminalOf(c *conv) string {
+	mach := "recipient"
+	if c.machine == identityMachine {
+		mach = "identity"
+	}
+	if len(c.msgs) == 0 {
+		return mach
+	}
+	return mach + ":" + c.msgs[len(c.msgs)-1].name
 }
 
 func repliesOf(tr *plug.Transcript) []string {
